@@ -16,7 +16,7 @@ from mathy_core.tokenizer import TOKEN_TYPES, Token, Tokenizer
 
 from ..core import Report, Violation, out_of_time, pmap, seed
 from ..symstr import SymKeyDict, SymStr, fresh_string
-from ..symx import Ctx, Stats, SymInt, SymNum, Unsupported, explore, frac_of
+from ..symx import Budget, Ctx, SelInt, Stats, SymInt, SymNum, Unsupported, explore, frac_of
 from ..trees import audit, sig
 from . import parser as PP
 from . import tokenizer as TZ
@@ -113,6 +113,8 @@ def judge_contract(call: Any) -> Tuple[str, List[Tuple[str, str]]]:
         return "reject", []
     except RecursionError:
         raise
+    except Budget:
+        return "internal", [("internal-error", "no result within the step / wall-clock budget (does not terminate?)")]
     except Exception as e:
         return "internal", [("internal-error", f"raised {type(e).__name__}: {str(e)[:80]}")]
     if not isinstance(tree, MathExpression):
@@ -197,9 +199,9 @@ def sym_tokens(ctx: Ctx, n: int, tag: str, kinds: List[int] = PP.KINDS, offset: 
     kz = []
     for i in range(n):
         z = z3.Int(f"{tag}{i}")
-        ctx.add(z3.Or([z == k for k in kinds]))
+        ctx.declare_selector(z, kinds)
         kz.append(z)
-        toks.append(PP.SymToken(offset + i, SymInt(z3.ToReal(z)), ctx))
+        toks.append(PP.SymToken(offset + i, SelInt(z), ctx))
     toks.append(Token("", T.EOF))
     return toks, kz
 
@@ -256,8 +258,8 @@ def state_worker(item: Tuple[str, int, Tuple[int, ...]]) -> Dict[str, Any]:
         for name in attrs:
             if name == "current_token":
                 z = z3.Int("hv_kind")
-                ctx.add(z3.Or([z == k for k in ALL_KINDS]))
-                choice[name] = PP.SymToken(9, SymInt(z3.ToReal(z)), ctx)
+                ctx.declare_selector(z, ALL_KINDS)
+                choice[name] = PP.SymToken(9, SelInt(z), ctx)
             else:
                 n = nlist  # None / empty list / list of stale tokens (one selector for all list attributes)
                 if n == 0:
@@ -273,6 +275,7 @@ def state_worker(item: Tuple[str, int, Tuple[int, ...]]) -> Dict[str, Any]:
         toks, kz = sym_tokens(ctx, N, "k")
         for i, k in enumerate(pre):
             ctx.add(kz[i] == k)
+            ctx.domains[kz[i].get_id()] = frozenset((k,))
         table = {"query": toks}
         desc = ""
         used = ExpressionParser()
